@@ -283,6 +283,32 @@ theorem construction_targets_in_range (g : Grammar) (hg : gwf g = true) (s : Set
       · cases hgo
     · cases hgo
 
+/-- **No REDUCE by an augmented production in any constructed table** (all three table types; the `no_reduce_aug`
+    clause of `Cert.total`): the completed augmented item yields ACCEPT, never a reduction — the parser loop's
+    `production lhs → goto` lookup after a reduction is never asked for the augmented symbol. -/
+theorem construction_no_reduce_aug (g : Grammar) (hg : gwf g = true) (s : Settings) (fuel : Nat) (t : Table)
+    (h : build g s fuel = .ok t) :
+    ∀ i a p len, Action.reduce p len ∈ t.cell i a → g.isAug p = false := by
+  intro i a p len hm
+  obtain ⟨st', hst', hm'⟩ := Rustemo.mem_cell hm
+  have hG := GW.of_gwf hg
+  obtain ⟨sts, autos, hF⟩ := built_final hG (build_ok h)
+  obtain ⟨it, _, _, _, _, _, hna⟩ := (final_facts hG hF).reduce i st' hst' a p len hm'
+  unfold Resolve.isAugProd at hna
+  unfold Grammar.isAug
+  split at hna
+  · rename_i pr hpr
+    rw [hpr]
+    simp only [Bool.or_eq_false_iff] at hna ⊢
+    refine ⟨hna.1, ?_⟩
+    cases hl : g.auglIdx with
+    | none => simp
+    | some l =>
+      rw [hl] at hna
+      simpa using hna.2
+  · rename_i hpr
+    rw [hpr]
+
 /-! ## non-vacuity: `S: 'a' S | EMPTY` -/
 
 /-- the grammar of `Props/Example.lean` with its terminal records (STOP, `a`) -/
